@@ -1,0 +1,35 @@
+//go:build verif
+
+package graphql
+
+import "sync/atomic"
+
+// Step counters for the verification harness (build tag verif). Index = site.
+const (
+	VerifSiteCollectInto = iota
+	VerifSitePlanMergedSelectionsForType
+	VerifSiteFindConflict
+	VerifSiteFieldsAndFragment
+	VerifSiteBetweenFragments
+	verifSiteCount
+)
+
+var verifCounters [verifSiteCount]atomic.Uint64
+
+func verifCount(site int) { verifCounters[site].Add(1) }
+
+// VerifCounters returns the current counter values, indexed by site.
+func VerifCounters() []uint64 {
+	out := make([]uint64, verifSiteCount)
+	for i := range out {
+		out[i] = verifCounters[i].Load()
+	}
+	return out
+}
+
+// VerifResetCounters zeroes all counters.
+func VerifResetCounters() {
+	for i := range verifCounters {
+		verifCounters[i].Store(0)
+	}
+}
